@@ -850,7 +850,17 @@ def r20_13(ctx, prog, crate):
     r18_2(Renamed(ctx, "R20.13"), prog, crate)
 
 
+def r20_14(ctx, prog, crate):
+    """(= R17.1 / R17.3) The rows under a type or constant show what ran for it: the typed benchmark function is taken from
+    the instantiation's own runner on every call and never from the argument list shared by all instantiations."""
+    from .C17 import r17_1, r17_3
+    from .common import Renamed
+    r17_1(Renamed(ctx, "R20.14"), prog, crate)
+    r17_3(Renamed(ctx, "R20.14"), prog, crate)
+
+
 def run(ctx, prog, crate):
+    r20_14(ctx, prog, crate)
     r20_13(ctx, prog, crate)
     r20_8(ctx, prog, crate)
     r20_9(ctx, prog, crate)
